@@ -74,7 +74,8 @@ class Target:
 
 
 class Resolution:
-    __slots__ = ('targets', 'externals', 'unresolved', 'fallback', 'ctor_of')
+    __slots__ = ('targets', 'externals', 'unresolved', 'fallback', 'ctor_of',
+                 'via')
 
     def __init__(self):
         self.targets: List[Target] = []
@@ -82,6 +83,7 @@ class Resolution:
         self.unresolved = False
         self.fallback = False
         self.ctor_of: List[str] = []   # class qnames instantiated
+        self.via = None                # synthetic call to inline instead
 
     def names(self):
         return [t.func.qname for t in self.targets] + self.externals
